@@ -5,12 +5,12 @@
    Proofs: Proofs.WriterProofs*. *)
 From Coq Require Import ZArith List String Ascii Bool.
 From Model Require Import PyBase Graph PeriodicTable Stereo Writer.
-From Gen Require Import Elements SmilesTables.
+From Gen Require Import Elements SmilesTables SmilesMore.
 From Coq Require Import Permutation.
 From Proofs Require Import WriterProofs WriterProofsAtom WriterProofsTokens WriterProofsStream WriterProofsClosures WriterProofsRefuted
                            WriterWfAtoms WriterWfFlatten WriterWfStream WriterWfDfs WriterWfEvents WriterWfTree WriterWfClosures WriterWfParens
                            WriterWfComplete WriterWfFlatten2 WriterWfDistinct WriterWfFinal WriterWfRun
-                           WriterWfFuelDfs WriterWfFuelFlat WriterWfFuelRun WriterWfFuelBfs WriterSeqFlatten WriterSeqTree WriterSeqAtoms.
+                           WriterWfFuelDfs WriterWfFuelFlat WriterWfFuelRun WriterWfFuelBfs WriterSeqFlatten WriterSeqTree WriterSeqAtoms WriterGenTies.
 Import ListNotations.
 Open Scope Z_scope.
 
@@ -443,6 +443,69 @@ Theorem C02_bfs_fuel_sufficient : forall g st start k, wf_mol g = true -> RI g s
   bfs g (S (n_atoms g) + k) [(start, 1)] (zset (ws_seen st) start 0) = bfs g (S (n_atoms g)) [(start, 1)] (zset (ws_seen st) start 0).
 Proof. exact bfs_fuel_sufficient. Qed.
 Print Assumptions C02_bfs_fuel_sufficient.
+
+(* ---- ties: hand-written constants / branch orders of Model.Writer against values regenerated from the source on every run
+   (tools/gen_smiles_more.py -> Gen.SmilesMore) ---- *)
+
+(* Smiles.__format__: the options the model derives from a format spec are those of the generated flag table
+   (substring, keyword, value in source order) over the generated keyword defaults (kwargs.get(name, default)) *)
+Theorem C02_opts_of_spec_generated : forall spec, opts_of_spec spec = opts_gen spec.
+Proof. exact opts_of_spec_generated. Qed.
+Print Assumptions C02_opts_of_spec_generated.
+
+Theorem C02_default_opts_generated : opts_gen "" = default_opts /\
+  forallb (fun fkv => match kw_lookup kw_defaults (snd (fst fkv)) with Some _ => true | None => false end) spec_flags = true.
+Proof. exact default_opts_generated. Qed.
+Print Assumptions C02_default_opts_generated.
+
+(* MoleculeSmiles._format_bond: the model tests the bond orders in the generated order and returns the generated strings *)
+Theorem C02_format_bond_generated : forall g o ctm n m,
+  format_bond g o ctm n m =
+  if negb (o_bonds o) then Ok (br 0) else
+  match bond_of g n m with
+  | None => Err KeyError
+  | Some b =>
+      if b_ord b =? bt 0 then Ok (if o_aromatic o then br 1 else br 2)
+      else if b_ord b =? bt 1 then
+        if o_aromatic o && (hybridization g n =? 4) && (hybridization g m =? 4) then Ok (br 3)
+        else if o_stereo o then
+          match ctm with
+          | Err e => Err e
+          | Ok cm => match pget cm (n, m) with Some x => Ok (if x then br 4 else br 5) | None => Ok (br 6) end
+          end
+        else Ok (br 6)
+      else if b_ord b =? bt 2 then Ok (br 7)
+      else if b_ord b =? bt 3 then Ok (br 8)
+      else Ok (br 9)
+  end.
+Proof. exact format_bond_generated. Qed.
+Print Assumptions C02_format_bond_generated.
+
+(* MoleculeSmiles._format_cxsmiles: prefix, separator and suffix of the radical block *)
+Theorem C02_format_cxsmiles_generated : forall g order,
+  format_cxsmiles g order =
+  if existsb (fun na => a_rad (snd na)) (m_atoms g)
+  then Some (scat [cx_prefix; String.concat cx_sep (map str_Z (radical_positions g order 0)); cx_suffix])
+  else None.
+Proof. exact format_cxsmiles_generated. Qed.
+Print Assumptions C02_format_cxsmiles_generated.
+
+(* atom_re: every character test of the staged matcher is membership in the class expanded from the pattern text *)
+Theorem C02_atom_re_classes_generated : forall c,
+  in_range c "1" "9" = char_in c re_iso_first /\
+  is_digit c = char_in c re_iso_more /\
+  elem_first c = char_in c re_el_first /\
+  elem_second c = char_in c re_el_second /\
+  in_range c "1" "4" = char_in c re_h_digits /\
+  (Ascii.eqb c "+" || Ascii.eqb c "-") = char_in c re_chg_first /\
+  (in_range c "1" "4" || Ascii.eqb c "+" || Ascii.eqb c "-") = char_in c re_chg_second /\
+  is_digit c = char_in c re_map_digits.
+Proof. exact atom_re_classes_generated. Qed.
+Print Assumptions C02_atom_re_classes_generated.
+
+Theorem C02_atom_re_iso_bound_generated : re_iso_more_max = 2.
+Proof. exact atom_re_iso_bound_generated. Qed.
+Print Assumptions C02_atom_re_iso_bound_generated.
 
 (* ---- towards read_write_graph (third round): sequence-level flattening and the tree of the traversal ---- *)
 (* from here on the reader's own models (C03) are in scope; their names shadow Writer.v's copies *)
